@@ -155,7 +155,7 @@ func main() {
 	write("Reader.v", genReader(c))
 	write("Writer.v", genWriter(c))
 	write("Json.v", genJson(c))
-	write("Server.v", genServer(c))
+	write("Handlers.v", genServer(c))
 	write("Effects.v", genEffects(c))
 	for _, w := range c.warn {
 		fmt.Fprintln(os.Stderr, "translator: "+w)
